@@ -30,12 +30,14 @@ static std::optional<Failure> check_one(Run &R, const Bytes &d) {
                        "domain '" + show(d) + "' (" + std::to_string(d.size()) + " octets): reference says " + (want ? "valid" : "invalid") + ", is_ascii_domain returned " + std::to_string(rc)};
     bool plain = !d.empty() && d[0] != '[' && d.find('@') == Bytes::npos;
     if (plain) {
-        Bytes addr = "x@" + d;
+        // the local part must not matter for the domain verdict: 1, 3, 20 or 64 octets by hash of the domain
+        static const Bytes LOCALS[4] = {"x", "abc", Bytes(20, 'l'), Bytes(64, 'l')};
+        Bytes addr = LOCALS[(hashs(d, 9) >> 3) & 3] + "@" + d;
         for (int m = 0; m < 3; m++) {
             v_outcome o = OBJ[m]->is_email_tail(TB, addr); R.eval();
             if ((o.ret == 1) != want)
                 return Failure{want ? "email-rejects-valid-host" : "email-accepts-invalid-host", mkcase(d).str(),
-                               "address 'x@" + show(d) + "' mode " + ref::MODE_NAME[m] + " TLD off: reference host verdict " + (want ? "valid" : "invalid") + ", " + outcome_str(o)};
+                               "address '" + show(addr.substr(0, 70)) + (addr.size() > 70 ? "..." : "") + "' (local part of " + std::to_string(addr.size() - d.size() - 1) + " octets) mode " + ref::MODE_NAME[m] + " TLD off: reference host verdict " + (want ? "valid" : "invalid") + ", " + outcome_str(o)};
             if (o.ret == 1 && !o.is_domain)
                 return Failure{"host-without-is_domain", mkcase(d).str(), "accepted host-name address without is_domain: " + outcome_str(o)};
         }
